@@ -77,9 +77,13 @@ def _analyze_require_blank_line(self, lToi):
         if does_a_blank_line_exist(iSearch, lTokens):
             continue
 
+        iCarriageReturn = find_carriage_return(iSearch, lTokens)
+        if iCarriageReturn is None:
+            continue
+
         dAction = {}
         dAction["action"] = "Insert"
-        dAction["index"] = find_carriage_return(iSearch, lTokens) + 1
+        dAction["index"] = iCarriageReturn + 1
 
         oViolation = violation.New(iLine, oToi, self.solution)
         oViolation.set_action(dAction)
